@@ -5,7 +5,7 @@ V = os.path.dirname(os.path.dirname(os.path.abspath(__file__)))
 
 CHECKS = {
  "C07": dict(level="model_checking", design="5/C07", technique="TLA+ contract (Fibers.tla) + as-is scheduler model (Sched.tla) exhaustively model-checked with TLC; TLC-generated programs replayed on the VM; recorded event traces validated against the contract with TLC",
-   text="Every channel event stream the hooked VM produces for TLC-chosen fiber programs (exhaustive witnesses + simulated behaviours) and for the channel fixtures is accepted by the contract Fibers.tla (FIFO, exactly once, capacity, sync hand-over, post-close behaviour, queue length after every op); the as-is model Sched.tla is model-checked against the same contract for all programs within 3 fibers x 2 channels x 3 ops.",
+   text="Every channel event stream the hooked VM produces for TLC-chosen fiber programs (exhaustive witnesses + simulated behaviours) and for the channel fixtures is accepted by the contract Fibers.tla (FIFO, exactly once, capacity, sync hand-over, post-close behaviour, queue length after every op); the as-is model Sched.tla is model-checked against the same contract for all programs within 3 fibers x 2 channels x 3 ops; beyond that bound the model itself selects the behaviours: in the 4 fibers x 2 channels x 3 ops model (1.77 M states) the 1262 finished behaviours in which a waiter search skips a finished fiber's entry and finds a live waiter behind it are replayed (Sched.tla focus mode).",
    note="Trusts the sched hooks (events emitted at the linearisation points) and TLC. Bounded: fibers<=4, channels<=3 (sync, cap 1, cap 2), ops<=5 per fiber, values are small integers."),
  "C08": dict(level="model_checking", design="5/C08", technique="TLA+ contract (Fibers.tla Deadlock/CanMove) + as-is scheduler model (Sched.tla) model-checked with TLC; programs from TLC behaviours replayed; traces validated; known scheduler defects attributed by exact as-is prediction",
    text="A reported deadlock is accepted only if no fiber can move in the contract state; host panics, hangs and spurious deadlocks on generated programs are violations unless the as-is model predicted exactly that execution and the class is a listed known finding.",
